@@ -2,11 +2,11 @@
 Driver for C42: runs the `SubProc` model on a JSON case and judges the implementation's
 observations with the monitor `SubProc.Spec.judge` (the property, independent of the model).
 
-input  i : {"size": n, "timeout": T, "cmds": [{"id": n, "submit": b, "kind": "quick|slow|hang|bad", "code": n}],
+input  i : {"size": n, "timeout": T, "cmds": [{"id": n, "submit": b, "kind": "quick|slow|hang|bad", "code": n, "remote": b?, "cb255": b?}],
             "ops": [["put", id] | ["proc", [id...]] | ["adv", dt] | ["rel", id] | ["stop"] | ["close"] | ["term", [id...]]]}
            (the id lists of proc / term are the children the implementation found exited: environment)
 observed o / model m : {"out": [[[EV...], queued, running] per op]}
-   EV : ["start", id] | ["cb", id, "exit:<code>" | "timeout" | "killed" | "stopping" | "oserr"]
+   EV : ["start", id] | ["cb", id, "exit:<code>" | "host255" (the 255 callback was called) | "timeout" | "killed" | "stopping" | "oserr"]
 -/
 import CylcModel.Util.Drv
 import CylcModel.SubProc
@@ -23,7 +23,8 @@ def parseKind : String → Except String Kind
 
 def parseCmd (j : Json) : Except String Cmd := do
   return { id := ← need (jNatField? j "id") "cmd.id", submit := ← need (jBoolField? j "submit") "cmd.submit",
-           kind := ← parseKind (← need (jStrField? j "kind") "cmd.kind"), code := ← need (jIntField? j "code") "cmd.code" }
+           kind := ← parseKind (← need (jStrField? j "kind") "cmd.kind"), code := ← need (jIntField? j "code") "cmd.code",
+           remote := (jBoolField? j "remote").getD false, cb255 := (jBoolField? j "cb255").getD false }
 
 def natList (j : Json) : Except String (List Nat) := do
   (← need (jArr? j) "id list").mapM fun x => need (jNat? x) "id"
@@ -62,6 +63,7 @@ def parseCase (j : Json) : Except String Case := do
 
 def outcomeStr : Outcome → String
   | .exit c => s!"exit:{c}"
+  | .host255 => "host255"
   | .timeout => "timeout"
   | .killed => "killed"
   | .stopping => "stopping"
@@ -84,6 +86,7 @@ def parseOutcome (s : String) : Option Outcome :=
   | "killed" => some .killed
   | "stopping" => some .stopping
   | "oserr" => some .oserr
+  | "host255" => some .host255
   | _ => if s.startsWith "exit:" then (s.drop 5).toInt?.map .exit else none
 
 def parseEv (cmds : List Cmd) (j : Json) : Option Ev :=
@@ -92,7 +95,7 @@ def parseEv (cmds : List Cmd) (j : Json) : Option Ev :=
     if jStr? k == some "start" then do
       let id ← jNat? a
       -- a start of a command that is not in the table is kept visible to the monitor
-      some (.start ((cmds.find? (·.id == id)).getD { id, submit := false, kind := .quick, code := 0 }))
+      some (.start ((cmds.find? (·.id == id)).getD { id, submit := false, kind := .quick, code := 0, remote := false, cb255 := false }))
     else none
   | some [k, a, o] =>
     if jStr? k == some "cb" then do
